@@ -196,9 +196,9 @@ def build(r, fname, form):
         clead = r.choice(["", "", "\t", "  ", "\t\t", " \t"]) if form.kind == "block" and not fname.endswith((".md", ".html", ".xml")) else ""
         if form.cont and "\n" in src:
             # decorated continuation lines: ` * ` precedes the rest of the tag on each new line
-            src2 = src.replace("\n", "\n" + clead + form.cont)
+            src2 = src.replace("\n", b.eol + clead + form.cont)
         else:
-            src2 = src
+            src2 = src.replace("\n", b.eol)       # line breaks inside a tag are the file's own (CRLF files: `<block\r\n  name=..`)
         feats |= fs
         open_c()
         if multiline_ok and r.random() < 0.4:
